@@ -154,6 +154,40 @@ mod gv {
         kani::cover!(n == 0, "cover.no_offsets");
     }
 
+    // ---- contract: FramingOffsets::from_encoded_array (decoder side: hostile bytes) -------------------------------------
+    // requires nothing about the bytes (any container of <= N bytes)
+    // ensures  no panic / overflow / out-of-bounds for ANY bytes (C04: GVariant clause);
+    //          Ok((offsets, offsets_len)) ==> offsets_len <= container length, offsets_len is a multiple of the offset
+    //          width chosen for the container length, and every offset handed out is <= the start of the offset table
+    //          (so a later slice `container[..offset]` stays inside the element area)
+    // @unit C05.from_encoded_array props=C05,C04 kind=bounded bound=container<=6 features=gvariant fn=zvariant::framing_offsets::FramingOffsets::from_encoded_array timeout=900
+#[cfg(not(verif_skip_c05_from_encoded_array__n6))]
+    #[cfg(kani)]
+    #[kani::proof]
+    #[kani::stub(alloc::fmt::format, stub_format)]
+    #[kani::unwind(8)]
+    fn c05_from_encoded_array__n6() {
+        let buf: [u8; 6] = kani::any();
+        let len: usize = kani::any();
+        kani::assume(len <= 6);
+        let container = &buf[..len];
+        let r = FramingOffsets::from_encoded_array(container);
+        match r {
+            Ok((mut offs, offsets_len)) => {
+                obl!("C05.from_encoded_array.table_inside_container", offsets_len <= len);
+                let start = len - offsets_len;
+                // width for containers this small is 1
+                let first = offs.pop();
+                if let Some(o) = first {
+                    obl!("C05.from_encoded_array.offsets_point_before_the_table", o <= start);
+                }
+                kani::cover!(first.is_some() && offsets_len == 2, "cover.two_offsets");
+                core::mem::forget(offs);
+            }
+            Err(e) => { core::mem::forget(e); }
+        }
+    }
+
     // NOTE (tool limit, measured): units for the GVariant alignment / fixed-size tables (Signature::alignment(Format::
     // GVariant), is_fixed_sized) over a static catalogue did not finish under CBMC -- 10 min timeouts even for fully
     // concrete container signatures, a crash at the 16 GB limit for the 13 basic types with a symbolic selector (the
